@@ -298,11 +298,28 @@ func vh_ae_log() {
 		idx := base + uint64(k)
 		vAssume(vImplies(vAnd(s.has(idx), idx <= a.LeaderCommitIndex), vAnd(k <= l.len, vSameAt(s, l, k))))
 	}
+	// batches handed to the FSM hold at most MaxAppendEntries tuples: with 1 every entry is its own batch
+	// (a reused batch slice would then be overwritten before the FSM goroutine consumed it)
+	cfgv := r.conf.Load().(Config)
+	variant := vChoose("variant", 0, 1+2*vTier()) // quick: {maxAE=1, plain store} and {maxAE=2, commit-tracking store}; thorough: all four
+	cfgv.MaxAppendEntries = 1 + variant%2
+	r.conf.Store(cfgv)
+	var cstore *mCommitLogStore
+	if variant == 1 || variant == 2 {
+		cstore = &mCommitLogStore{mLogStore: s, staged: r.commitIndex}
+		r.logs = cstore
+		r.RestoreCommittedLogs = true
+	}
 	pre := vSnap(r, env)
 	preStore := s.clone()
 	preLastIdx, _ := r.getLastLog()
 	rpc, ch := vMakeRPC(a)
 	panicked := vCatch(func() { r.appendEntries(rpc, a) })
+	if cstore != nil {
+		// the durably staged commit index never exceeds what the leader reported committed nor what was committed before
+		vAssert(vOr(cstore.staged <= a.LeaderCommitIndex, cstore.staged <= pre.commit), "C05.ae.staged-commit-index-is-committed")
+		vAssert(vOr(cstore.staged <= a.LeaderCommitIndex, cstore.staged <= pre.commit), "C10.ae.staged-commit-index-is-committed")
+	}
 	vAssert(!panicked, "C02.ae.no-panic")
 	vAssert(!panicked, "C04.ae.no-panic")
 	vAssert(!panicked, "C05.ae.no-panic")
